@@ -24,6 +24,13 @@ def setup():
 
 
 def lean_obligations(prop, tier):
+    # the generated tables and the build output live in one place: translate + build + audit are one critical section, so that
+    # checks running at the same time against different trees (seeded changes tried in parallel) never see each other's tables
+    with Lock('lean-obligations'):
+        return _lean_obligations(prop, tier)
+
+
+def _lean_obligations(prop, tier):
     """returns dict(ok, theorems={name: axioms}, failures=[...], checker_cmd)"""
     import translate
     res = dict(ok=True, theorems={}, failures=[], partial=[], counterexamples=[])
